@@ -491,6 +491,28 @@ def gen_twin_workspace(rng):
     return out
 
 
+def gen_many_files_workspace(rng, n=None):
+    """more files than the references worker pool has workers (runtime.NumCPU()+2): some worker handles several files;
+    a global defined in one file and used once per file, each use on a different line"""
+    import os
+    n = n or (os.cpu_count() or 16) + rng.choice([6, 10])
+    g = rng.choice(GLOBALS)
+    out = []
+    for fi in range(n):
+        fn = "m%02d.lua" % fi
+        lines = ["-- filler %d" % k for k in range(fi)]
+        lines.append("%s = %d" % (g, fi) if fi == 0 else "%s(%s)" % (rng.choice(UNDEF), g))
+        text = "\n".join(lines) + "\n"
+        pos = []
+        for li, ln in enumerate(text.split("\n")):
+            if ln.startswith("--"):
+                continue
+            for m in IDENT_RE.finditer(ln):
+                pos.append((m.group(0), li, m.start()))
+        out.append((fn, text, ident_positions(pos)))
+    return out
+
+
 def cursor_steps(ops, ws, rng, both_ends=True, newname="zz9", docend=True):
     steps = []
     for fi, (fn, text, ids) in enumerate(ws):
